@@ -24,21 +24,21 @@ import (
 // burst that the discipline has emitted over a long time.
 
 type limitMon struct {
-	f      failer
-	cfg    Cfg
-	Q      int64
-	I      int64
-	in     *vrt.ChanState
-	out    *vrt.ChanState
-	sentAt []int64 // emission times (discipline side)
-	recvAt []int64 // consumer side
-	next   int     // next element expected at the output
-	nrecv  int
+	f                   failer
+	cfg                 Cfg
+	Q                   int64
+	I                   int64
+	in                  *vrt.ChanState
+	out                 *vrt.ChanState
+	sentAt              []int64 // emission times (discipline side)
+	recvAt              []int64 // consumer side
+	next                int     // next element expected at the output
+	nrecv               int
 	inClosed, outClosed bool
-	closedAt int64
-	written  int
-	accepted int
-	bursts   int
+	closedAt            int64
+	written             int
+	accepted            int
+	bursts              int
 }
 
 func (m *limitMon) Hash() uint64 {
@@ -124,7 +124,11 @@ func buildLimit(c Cfg) *explore.Scenario {
 }
 
 func newLimit(c Cfg, w *vrt.World) *explore.Instance {
-	m := &limitMon{cfg: c, Q: int64(c.Q), I: c.I}
+	q := int64(c.Q)
+	if c.Q > 1<<40 {
+		q = 1 << 40 // huge quantities: the bounds are never reached, keep the arithmetic in range
+	}
+	m := &limitMon{cfg: c, Q: q, I: c.I}
 	m.f = failer{c, w}
 	w.Monitors = append(w.Monitors, m)
 	total := 0
@@ -212,7 +216,7 @@ func newLimit(c Cfg, w *vrt.World) *explore.Instance {
 				return "C12: the output was not closed"
 			}
 			if c.Mode == "prefill" {
-				q := int64(c.Q)
+				q := m.Q
 				n := int64(total)
 				limit := ((n + q - 1) / q) * c.I
 				if m.closedAt > limit {
